@@ -60,9 +60,42 @@ def run_check(wt, chk, tier, seed=0):
     return rec
 
 
+def readme():
+    """seeded/README.md from the meta.json files"""
+    rows = []
+    for name in sorted(os.listdir(os.path.join(ROOT, "seeded"))):
+        mp = os.path.join(ROOT, "seeded", name, "meta.json")
+        if not os.path.exists(mp):
+            continue
+        m = json.load(open(mp))
+        first = m["results"][0] if m.get("results") else {}
+        last = (m.get("rechecks") or [{}])[-1].get("results", [first])[0] if m.get("rechecks") else first
+        def cell(r):
+            if not r:
+                return "-"
+            if r.get("exit") == 1:
+                return f"detected ({r.get('violations')} keys, {r.get('wall_s')} s)"
+            return "MISSED" if r.get("exit") == 0 else f"tool error (exit {r.get('exit')})"
+        kv = (last.get("first") or [""])[0]
+        k = re.search(r"key=(\S+)", kv)
+        esc = lambda t: str(t).replace("|", "\\|")
+        rows.append(f"| {name} | {m['property']} | {esc(m.get('summary', ''))} | {esc(m.get('needs', ''))} | {cell(first)} | {cell(last) if m.get('rechecks') else '(same)'} | `{k.group(1)[:90] if k else ''}` |")
+    text = ("# Changes seeded by independent sub-agents\n\n"
+            "Each directory holds `patch.diff` (applies to /repo HEAD with `git apply`), `demo.rs` (the agent's demonstration: fails with the change, passes without),\n"
+            "`notes.md` (the agent's description) and `meta.json` (what was confirmed and what the registered check did).  The agents were given only the property text and a\n"
+            "scratch worktree of /repo; nothing from /verif.  Every change was confirmed in a scratch worktree by `tools/seeded.py confirm`: the patch applies, `cargo test --offline`\n"
+            "still has the pinned 227 passing tests, the demo exits non-zero with the change and zero without.  The check was then run with `VERIF_REPO=<scratch worktree>`.\n"
+            "`first run` is the outcome with the machinery as it was when the change arrived; `after strengthening` the outcome of `tools/seeded.py recheck <name>` with the current\n"
+            "machinery (see DESIGN.md section 0.6 for what was strengthened and why).  Re-run any of them with `python3 tools/seeded.py recheck <name>`.\n\n"
+            "| name | property | change | needs to manifest | first run (quick tier) | after strengthening | violation key |\n|---|---|---|---|---|---|---|\n" + "\n".join(rows) + "\n")
+    open(os.path.join(ROOT, "seeded", "README.md"), "w").write(text)
+    print(text)
+    return 0
+
+
 def main():
     a = sys.argv[1:]
-    mode, ident = a[0], a[1]
+    mode, ident = a[0], (a[1] if len(a) > 1 else "")
     opt = dict(zip(a[2::2], a[3::2]))
     tier = opt.get("--tier", "quick")
     if mode == "recheck":
@@ -80,6 +113,8 @@ def main():
         json.dump(meta, open(os.path.join(d, "meta.json"), "w"), indent=1)
         sh(["git", "-C", "/repo", "worktree", "remove", "--force", wt])
         return 0
+    if mode == "readme":
+        return readme()
     pid = ident
     src = opt.get("--src", f"/tmp/seed-{pid}-out")
     wt = opt.get("--wt", f"/tmp/seed-{pid}")
